@@ -20,6 +20,7 @@ type caseRes struct {
 	lost    map[int64]string // acked id never stored -> op kind after which no copy was left anywhere
 	dup     map[int64]string // id stored more than once -> op kind after which the 2nd copy appeared
 	fullAck map[int64]bool   // id acknowledged by a write that took the queue-full arm
+	cause   map[int64]string // closed classification: which event removed the id's last WAL-file copy
 	acked   []int64
 	crash   bool
 	err     string
@@ -84,7 +85,7 @@ func runCase(c *vh.Ctx, scratch string, cc caseCfg, facts factsT, ops []op, reco
 	os.MkdirAll(root, 0o755)
 	s := newSys(cc, facts, root)
 	defer s.cleanup()
-	res := caseRes{lost: map[int64]string{}, dup: map[int64]string{}, fullAck: map[int64]bool{}}
+	res := caseRes{lost: map[int64]string{}, dup: map[int64]string{}, fullAck: map[int64]bool{}, cause: map[int64]string{}}
 	hdr := cfgLine(cc, facts)
 	res.lines = append(res.lines, hdr)
 	if record {
@@ -92,25 +93,14 @@ func runCase(c *vh.Ctx, scratch string, cc caseCfg, facts factsT, ops []op, reco
 	}
 	gone := map[int64]string{}
 	dupAt := map[int64]string{}
-	paused, hold := false, false
+	inWal := map[int64]bool{}     // currently in some WAL file
+	walGone := map[int64]string{} // event after which the id's last WAL-file copy was removed
 	exec := func(o op) {
 		full0 := ingest.VerifC07FullCount()
 		line, dg, st := s.apply(o)
 		res.lines = append(res.lines, line)
 		if record {
 			c.Op(line, dg)
-		}
-		switch o.kind {
-		case "wpause":
-			paused = s.up && s.cc.wal
-		case "wresume", "shut", "crash", "restart":
-			paused = false
-		}
-		switch o.kind {
-		case "hold":
-			hold = s.up
-		case "unhold", "shut", "crash", "restart":
-			hold = false
 		}
 		if o.kind == "crash" {
 			res.crash = true
@@ -130,6 +120,14 @@ func runCase(c *vh.Ctx, scratch string, cc caseCfg, facts factsT, ops []op, reco
 		}
 		pending := st.q > 0 || st.inf || st.ch > 0
 		for _, id := range res.acked {
+			nowIn := hasID(st.active, id)
+			for _, f := range st.rot {
+				nowIn = nowIn || hasID(f, id)
+			}
+			if inWal[id] && !nowIn {
+				walGone[id] = o.kind
+			}
+			inWal[id] = nowIn
 			if _, ok := gone[id]; !ok && !pending {
 				vis := hasID(st.stored, id) || hasID(st.active, id)
 				for _, b := range st.bufs {
@@ -152,12 +150,12 @@ func runCase(c *vh.Ctx, scratch string, cc caseCfg, facts factsT, ops []op, reco
 			break
 		}
 		// guards: the tick and the coordinator take the writer mutex
-		if (o.kind == "tick" || o.kind == "shut") && paused {
+		if (o.kind == "tick" || o.kind == "shut") && s.paused {
 			exec(op{kind: "wresume"})
 		}
 		exec(o)
 	}
-	for _, o := range healing(s.up, paused, hold) {
+	for _, o := range healing(s.up, s.paused, s.g.holding()) {
 		if s.err != "" {
 			break
 		}
@@ -179,8 +177,13 @@ func runCase(c *vh.Ctx, scratch string, cc caseCfg, facts factsT, ops []op, reco
 				k = "end"
 			}
 			res.lost[id] = k
+			res.cause[id] = "never-in-wal-file"
+			if g, ok := walGone[id]; ok {
+				res.cause[id] = "wal-copy-removed-by-" + g
+			}
 		case n > 1:
 			res.dup[id] = dupAt[id]
+			res.cause[id] = "wal-replayed-by-" + walGone[id]
 		}
 	}
 	return res
@@ -218,14 +221,14 @@ func report(c *vh.Ctx, cc caseCfg, res caseRes, forced string) bool {
 			}
 			continue
 		}
-		key := "loss@" + k
+		key := "loss:" + res.cause[id]
 		if forced != "" {
 			key = forced
 		}
 		fail(key, fmt.Sprintf("acknowledged row %d is never stored although storage recovered and maintenance ticks, aged flush, graceful shutdown and restart completed (last copy gone after event %q)", id, k))
 	}
 	for id, k := range res.dup {
-		key := "dup@" + k
+		key := "dup:" + res.cause[id]
 		if forced != "" {
 			key = forced
 		}
@@ -481,6 +484,10 @@ func main() {
 		for _, wal := range []bool{true, false} {
 			cc := base
 			cc.wal = wal
+			L = 3
+			if wal {
+				L = 4
+			}
 			rec(nil, 0, cc)
 		}
 	}
@@ -488,9 +495,9 @@ func main() {
 	// 3. random fault histories (<= 14 events)
 	n := c.N
 	if n == 0 {
-		n = 350
+		n = 1500
 		if c.Thorough() {
-			n = 6000
+			n = 8000
 		}
 	}
 	for i := 0; i < n; i++ {
